@@ -233,6 +233,9 @@ structure InnerInv (s : DSetData) (i lo n : Nat) (st : CollectState) : Prop wher
   prevLt : ∀ i', i' < i → ∀ x, 1 ≤ x → x ≤ s.size → (st.index.getD i' #[]).getD x 0 < lo
   sep : ∀ i' i'', i' < i'' → i'' < i → ∀ x y, 1 ≤ x → x ≤ s.size → 1 ≤ y → y ≤ s.size →
     (st.index.getD i' #[]).getD x 0 < (st.index.getD i'' #[]).getD y 0
+  surj : ∀ k, k < st.rs.size →
+    (∃ i' x, i' < i ∧ 1 ≤ x ∧ x ≤ s.size ∧ (st.index.getD i' #[]).getD x 0 = k) ∨
+    (∃ x, 1 ≤ x ∧ x ≤ s.size ∧ st.seen.getD x false = true ∧ (st.index.getD i #[]).getD x 0 = k)
 
 theorem InnerInv.step {s : DSetData} (h : ValidSet s) {i : Nat} (hi : i + 1 ≤ s.dim) {lo n : Nat} (hn : n < s.size)
     {st : CollectState} (inv : InnerInv s i lo n st) : InnerInv s i lo (n + 1) (collectStep s i st n) := by
@@ -242,7 +245,7 @@ theorem InnerInv.step {s : DSetData} (h : ValidSet s) {i : Nat} (hi : i + 1 ≤ 
   by_cases hseen : st.seen.getD (n + 1) false = true
   · rw [if_pos hseen]
     refine ⟨inv.seenSize, inv.indexSize, inv.rowSize, ?_, inv.closed, inv.lt, inv.per, inv.iff, inv.prev,
-      inv.loLe, inv.geLo, inv.prevLt, inv.sep⟩
+      inv.loLe, inv.geLo, inv.prevLt, inv.sep, inv.surj⟩
     intro x h1 h2 h3
     by_cases hx : x = n + 1
     · rw [hx]; exact hseen
@@ -275,7 +278,7 @@ theorem InnerInv.step {s : DSetData} (h : ValidSet s) {i : Nat} (hi : i + 1 ≤ 
       · rw [(hnm x hmx).2]; exact hx
     have hold : ∀ x, ¬ Marked s i (n + 1) 0 k x → seen'.getD x false = true → st.seen.getD x false = true := by
       intro x hmx hx; rw [(hnm x hmx).2] at hx; exact hx
-    refine ⟨hs2, by simp [inv.indexSize], ?_, ?_, ?_, ?_, ?_, ?_, ?_, ?_, ?_, ?_, ?_⟩
+    refine ⟨hs2, by simp [inv.indexSize], ?_, ?_, ?_, ?_, ?_, ?_, ?_, ?_, ?_, ?_, ?_, ?_⟩
     · intro i' hi'
       by_cases he : i' = i
       · subst he; show ((st.index.setIfInBounds i' ix').getD i' #[]).size = _; rw [hrow]; exact hs1
@@ -343,6 +346,20 @@ theorem InnerInv.step {s : DSetData} (h : ValidSet s) {i : Nat} (hi : i + 1 ≤ 
     · intro i' i'' h12 h2i x y hx1 hx2 hy1 hy2
       show ((st.index.setIfInBounds i ix').getD i' #[]).getD x 0 < ((st.index.setIfInBounds i ix').getD i'' #[]).getD y 0
       rw [hrow' i' (by omega), hrow' i'' (by omega)]; exact inv.sep i' i'' h12 h2i x y hx1 hx2 hy1 hy2
+    · intro k' hk'
+      show (∃ i' x, i' < i ∧ 1 ≤ x ∧ x ≤ s.size ∧ ((st.index.setIfInBounds i ix').getD i' #[]).getD x 0 = k') ∨
+        (∃ x, 1 ≤ x ∧ x ≤ s.size ∧ seen'.getD x false = true ∧ ((st.index.setIfInBounds i ix').getD i #[]).getD x 0 = k')
+      rw [hrow]
+      have hk'' : k' < st.rs.size + 1 := by simpa [Array.size_push] using hk'
+      by_cases hnew : k' = st.rs.size
+      · right
+        have hmd : Marked s i (n + 1) 0 k (n + 1) := (hM _).2 (Orb2.refl _)
+        exact ⟨n + 1, hd.1, hd.2, (hm _ hmd).2, by rw [(hm _ hmd).1, hnew]⟩
+      · rcases inv.surj k' (by omega) with ⟨i', x, hi', hx1, hx2, hx⟩ | ⟨x, hx1, hx2, hsx, hx⟩
+        · left; exact ⟨i', x, hi', hx1, hx2, by rw [hrow' i' (by omega)]; exact hx⟩
+        · right
+          have hmx : ¬ Marked s i (n + 1) 0 k x := fun hc => hunseen x hx1 hx2 hc hsx
+          exact ⟨x, hx1, hx2, hmono x hsx, by rw [(hnm x hmx).1]; exact hx⟩
 
 theorem InnerInv.fold {s : DSetData} (h : ValidSet s) {i : Nat} (hi : i + 1 ≤ s.dim) {lo : Nat}
     {st : CollectState} (inv : InnerInv s i lo 0 st) :
@@ -359,13 +376,15 @@ structure OuterInv (s : DSetData) (i : Nat) (st : CollectState) : Prop where
   prev : ∀ i', i' < i → RowOK s st.rs (st.index.getD i' #[]) i'
   sep : ∀ i' i'', i' < i'' → i'' < i → ∀ x y, 1 ≤ x → x ≤ s.size → 1 ≤ y → y ≤ s.size →
     (st.index.getD i' #[]).getD x 0 < (st.index.getD i'' #[]).getD y 0
+  surj : ∀ k, k < st.rs.size → ∃ i' x, i' < i ∧ 1 ≤ x ∧ x ≤ s.size ∧ (st.index.getD i' #[]).getD x 0 = k
 
 theorem OuterInv.step {s : DSetData} (h : ValidSet s) {i : Nat} (hi : i + 1 ≤ s.dim)
     {st : CollectState} (inv : OuterInv s i st) : OuterInv s (i + 1) (collectRow s st i) := by
   have h0 : InnerInv s i st.rs.size 0 { st with seen := Array.replicate (s.size + 1) false } := by
     have hf : ∀ x, (Array.replicate (s.size + 1) false).getD x false = true → False := by
       intro x hx; rw [getD_replicate] at hx; cases hx
-    refine ⟨by simp, inv.indexSize, inv.rowSize, ?_, ?_, ?_, ?_, ?_, inv.prev, Nat.le_refl _, ?_, ?_, inv.sep⟩
+    refine ⟨by simp, inv.indexSize, inv.rowSize, ?_, ?_, ?_, ?_, ?_, inv.prev, Nat.le_refl _, ?_, ?_, inv.sep,
+      fun k hk => Or.inl (inv.surj k hk)⟩
     · intro x h1 h2; omega
     · intro x y _ _ hx; exact (hf x hx).elim
     · intro x _ _ hx; exact (hf x hx).elim
@@ -374,7 +393,7 @@ theorem OuterInv.step {s : DSetData} (h : ValidSet s) {i : Nat} (hi : i + 1 ≤ 
     · intro x _ _ hx; exact (hf x hx).elim
     · intro i' hi' x h1 h2; exact (inv.prev i' hi').lt x h1 h2
   have hfin := InnerInv.fold h hi h0 s.size (Nat.le_refl _)
-  refine ⟨hfin.indexSize, hfin.rowSize, ?_, ?_⟩
+  refine ⟨hfin.indexSize, hfin.rowSize, ?_, ?_, ?_⟩
   · intro i' hi'
     by_cases he : i' = i
     · subst he
@@ -388,11 +407,16 @@ theorem OuterInv.step {s : DSetData} (h : ValidSet s) {i : Nat} (hi : i + 1 ≤ 
     · subst he
       exact Nat.lt_of_lt_of_le (hfin.prevLt i' h12 x hx1 hx2) (hfin.geLo y hy1 hy2 (hfin.done y hy1 hy2 hy2))
     · exact hfin.sep i' i'' h12 (by omega) x y hx1 hx2 hy1 hy2
+  · intro k hk
+    rcases hfin.surj k hk with ⟨i', x, hi', hx1, hx2, hx⟩ | ⟨x, hx1, hx2, _, hx⟩
+    · exact ⟨i', x, by omega, hx1, hx2, hx⟩
+    · exact ⟨i, x, by omega, hx1, hx2, hx⟩
 
 theorem OuterInv.fold {s : DSetData} (h : ValidSet s) :
     ∀ n, n ≤ s.dim → OuterInv s n ((List.range n).foldl (collectRow s) (collectInit s))
   | 0, _ => by
-    refine ⟨by simp [collectInit], ?_, fun i' hi' => by omega, fun i' i'' _ hi'' => by omega⟩
+    refine ⟨by simp [collectInit], ?_, fun i' hi' => by omega, fun i' i'' _ hi'' => by omega,
+      fun k hk => by simp [collectInit] at hk⟩
     intro i' hi'
     show ((Array.replicate s.dim (Array.replicate (s.size + 1) 0)).getD i' #[]).size = s.size + 1
     rw [Array.getD_eq_getD_getElem?, Array.getElem?_replicate, if_pos hi']
@@ -416,5 +440,12 @@ theorem collectOrbits_rows_lt {s : DSetData} (h : ValidSet s) {i' i : Nat} (h1 :
   have := OuterInv.fold h s.dim (Nat.le_refl _)
   rw [collectOrbits_eq]
   exact this.sep i' i h1 h2 x y hx1 hx2 hy1 hy2
+
+/-- every orbit number is used: each entry of `rs` belongs to the orbit of some chamber -/
+theorem collectOrbits_surj {s : DSetData} (h : ValidSet s) {k : Nat} (hk : k < (collectOrbits s).rs.size) :
+    ∃ i x, i < s.dim ∧ 1 ≤ x ∧ x ≤ s.size ∧ ((collectOrbits s).index.getD i #[]).getD x 0 = k := by
+  have := OuterInv.fold h s.dim (Nat.le_refl _)
+  rw [collectOrbits_eq] at hk ⊢
+  exact this.surj k hk
 
 end DSymVerif.DS
